@@ -64,40 +64,40 @@ impl Read for Chunked {
 
 /// Checks one successfully emitted item against the reference decoding of its payload.
 fn check_item(t: &FlatTag, ty: Ty, p: &[u8; 8], n: usize) {
-    assert!(t.id == ty.id() as u64, "C03b: emitted item has the id found at its offset");
+    assert!(t.id == ty.id() as u64, "C03/C04/C16b: emitted item has the id found at its offset");
     match (ty, &t.val) {
-        (Ty::U, Val::U(v)) => assert!(*v == ref_be_u64(p, n), "C03b: unsigned value is the big-endian decoding of exactly its payload bytes"),
-        (Ty::I, Val::I(v)) => assert!(*v == ref_be_i64_sext(p, n), "C03b: signed value is the sign-extended two's-complement decoding of its payload bytes"),
+        (Ty::U, Val::U(v)) => assert!(*v == ref_be_u64(p, n), "C03/C04/C16b: unsigned value is the big-endian decoding of exactly its payload bytes"),
+        (Ty::I, Val::I(v)) => assert!(*v == ref_be_i64_sext(p, n), "C03/C04/C16b: signed value is the sign-extended two's-complement decoding of its payload bytes"),
         (Ty::F, Val::F(v)) => {
             if n == 8 {
-                assert!(v.to_bits() == ref_be_u64(p, 8), "C03b: 8-byte float is bit-exact");
+                assert!(v.to_bits() == ref_be_u64(p, 8), "C03/C04/C16b: 8-byte float is bit-exact");
             } else {
                 let f = f32::from_bits(ref_be_u64(p, 4) as u32);
-                assert!(v.is_nan() == f.is_nan() && (f.is_nan() || v.to_bits() == (f as f64).to_bits()), "C03b: 4-byte float is the IEEE-754 widening");
+                assert!(v.is_nan() == f.is_nan() && (f.is_nan() || v.to_bits() == (f as f64).to_bits()), "C03/C04/C16b: 4-byte float is the IEEE-754 widening");
             }
         }
         (Ty::S, Val::S(s)) => {
-            assert!(s.len() == n, "C03b: utf8 value has exactly the payload length");
+            assert!(s.len() == n, "C03/C04/C16b: utf8 value has exactly the payload length");
             let b = s.as_bytes();
             let mut i = 0;
             while i < 8 {
                 if i < n {
-                    assert!(b[i] == p[i], "C03b: utf8 value is exactly the payload bytes");
+                    assert!(b[i] == p[i], "C03/C04/C16b: utf8 value is exactly the payload bytes");
                 }
                 i += 1;
             }
         }
         (Ty::B, Val::B(b)) => {
-            assert!(b.len() == n, "C03b: binary value has exactly the payload length");
+            assert!(b.len() == n, "C03/C04/C16b: binary value has exactly the payload length");
             let mut i = 0;
             while i < 8 {
                 if i < n {
-                    assert!(b[i] == p[i], "C03b: binary value is exactly the payload bytes");
+                    assert!(b[i] == p[i], "C03/C04/C16b: binary value is exactly the payload bytes");
                 }
                 i += 1;
             }
         }
-        _ => assert!(false, "C03b: emitted item has the value kind of its declared type"),
+        _ => assert!(false, "C03/C04/C16b: emitted item has the value kind of its declared type"),
     }
 }
 
@@ -160,23 +160,23 @@ fn drive<R: Read>(it: &mut TagIterator<R, FlatTag>, els: [(Ty, usize, [u8; 8], u
                 match &r {
                     Some(Ok(t)) => {
                         check_item(t, ty, &p, n);
-                        assert!(it.last_emitted_tag_offset() == start, "C03b: the item reports the offset where its header starts; the next item starts where the previous payload ended");
+                        assert!(it.last_emitted_tag_offset() == start, "C03/C04/C16b: the item reports the offset where its header starts; the next item starts where the previous payload ended");
                     }
-                    _ => assert!(false, "C12b: a completely contained element is emitted"),
+                    _ => assert!(false, "C12/C04b: a completely contained element is emitted"),
                 }
             } else {
                 match &r {
-                    Some(Err(e)) => assert!(matches!(kind_of(e), ErrKind::CorruptedTagData { tag_id } if tag_id == ty.id() as u64), "C05b: a float of length other than 4/8 is a data error, not a panic"),
-                    _ => assert!(false, "C05b: a float of length other than 4/8 is reported as corrupted tag data"),
+                    Some(Err(e)) => assert!(matches!(kind_of(e), ErrKind::CorruptedTagData { tag_id } if tag_id == ty.id() as u64), "C05/C04b: a float of length other than 4/8 is a data error, not a panic"),
+                    _ => assert!(false, "C05/C04b: a float of length other than 4/8 is reported as corrupted tag data"),
                 }
                 core::mem::forget(r);
                 return;
             }
         } else if len == start {
             // cut on a tag boundary: normal termination, and the iterator stays finished
-            assert!(r.is_none(), "C12b: a cut on a tag boundary ends the iteration normally");
+            assert!(r.is_none(), "C12/C04b: a cut on a tag boundary ends the iteration normally");
             let r2 = it.next();
-            assert!(r2.is_none(), "C05c: after None the iterator keeps returning None");
+            assert!(r2.is_none(), "C05/C04c: after None the iterator keeps returning None");
             core::mem::forget(r2);
             core::mem::forget(r);
             return;
@@ -186,31 +186,31 @@ fn drive<R: Read>(it: &mut TagIterator<R, FlatTag>, els: [(Ty, usize, [u8; 8], u
                 Some(Err(e)) => {
                     let k = kind_of(e);
                     assert!(!matches!(k, ErrKind::InvalidTagId { .. } | ErrKind::InvalidTagData { .. } | ErrKind::Hierarchy { .. } | ErrKind::Oversized { .. } | ErrKind::InvalidTagSize { .. } | ErrKind::CorruptedTagData { .. }),
-                        "C12b: a merely truncated element is never reported as corruption");
+                        "C12/C04b: a merely truncated element is never reported as corruption");
                     let want_id = if len >= start + 1 { Some(ty.id() as u64) } else { None };
                     let want_size = if len >= start + 2 { Some(n) } else { None };
                     assert!(matches!(k, ErrKind::Eof { tag_start, tag_id, tag_size, .. } if tag_start == start && tag_id == want_id && tag_size == want_size),
-                        "C12b: EOF error carries the incomplete tag's offset, its id iff the id bytes are complete, its size iff the header is complete");
+                        "C12/C04b: EOF error carries the incomplete tag's offset, its id iff the id bytes are complete, its size iff the header is complete");
                     if let ebml_iterable::error::TagIteratorError::UnexpectedEOF { partial_data, .. } = e {
                         if len >= start + 2 {
                             let avail = len - (start + 2);
                             match partial_data {
                                 Some(d) => {
-                                    assert!(d.len() == avail, "C12b: partial data are exactly the payload bytes that were available");
+                                    assert!(d.len() == avail, "C12/C04b: partial data are exactly the payload bytes that were available");
                                     let mut i = 0;
                                     while i < 8 {
                                         if i < avail {
-                                            assert!(d[i] == p[i], "C12b: partial data bytes equal the available payload bytes");
+                                            assert!(d[i] == p[i], "C12/C04b: partial data bytes equal the available payload bytes");
                                         }
                                         i += 1;
                                     }
                                 }
-                                None => assert!(false, "C12b: partial data present once the header is complete"),
+                                None => assert!(false, "C12/C04b: partial data present once the header is complete"),
                             }
                         }
                     }
                 }
-                _ => assert!(false, "C12b: a cut inside an element yields an unexpected-end-of-file error"),
+                _ => assert!(false, "C12/C04b: a cut inside an element yields an unexpected-end-of-file error"),
             }
             core::mem::forget(r);
             return;
@@ -220,9 +220,9 @@ fn drive<R: Read>(it: &mut TagIterator<R, FlatTag>, els: [(Ty, usize, [u8; 8], u
     }
     // both elements emitted: the stream is exhausted
     let r = it.next();
-    assert!(r.is_none(), "C03b: nothing is emitted after the last element");
+    assert!(r.is_none(), "C03/C04/C16b: nothing is emitted after the last element");
     let r2 = it.next();
-    assert!(r2.is_none(), "C05c: after None the iterator keeps returning None");
+    assert!(r2.is_none(), "C05/C04c: after None the iterator keeps returning None");
     core::mem::forget(r);
     core::mem::forget(r2);
 }
@@ -299,17 +299,17 @@ fn cut_b14_then_one_byte() {
     let r = it.next();
     match &r {
         Some(Ok(t)) => {
-            assert!(t.id == flat::B && matches!(t.val, Val::B(b) if b.len() == 14 && b[0] == p[0] && b[13] == p[13]), "C03b: binary value is exactly the payload bytes");
-            assert!(it.last_emitted_tag_offset() == 0, "C03b: first item at offset 0");
+            assert!(t.id == flat::B && matches!(t.val, Val::B(b) if b.len() == 14 && b[0] == p[0] && b[13] == p[13]), "C03/C04/C16b: binary value is exactly the payload bytes");
+            assert!(it.last_emitted_tag_offset() == 0, "C03/C04/C16b: first item at offset 0");
         }
-        _ => assert!(false, "C12b: a completely contained element is emitted"),
+        _ => assert!(false, "C12/C04b: a completely contained element is emitted"),
     }
     core::mem::forget(r);
     let r = it.next();
     match &r {
         Some(Err(e)) => assert!(matches!(kind_of(e), ErrKind::Eof { tag_start: 16, tag_id: Some(id), tag_size: None, .. } if id == flat::U),
-            "C12b: a single dangling byte after a tag boundary is an unexpected end of file at that byte, id present, no size"),
-        _ => assert!(false, "C12b: a cut one byte into the next element is an error, not a normal end (and not chunking-dependent: C04)"),
+            "C12/C04b: a single dangling byte after a tag boundary is an unexpected end of file at that byte, id present, no size"),
+        _ => assert!(false, "C12/C04b: a cut one byte into the next element is an error, not a normal end (and not chunking-dependent: C04)"),
     }
     core::mem::forget(r);
     core::mem::forget(it);
